@@ -5,7 +5,7 @@ import numpy as np
 
 from vmon.gen import atomsgen
 from vmon.oracle import atomsmodel as AM
-from vmon.oracle.util import deep_diff
+from vmon.oracle.util import deep_diff, clone
 
 PROPERTY = "C12"
 RULE = ("Generated structures (1-7 atoms, all four term kinds incl. impropers, tables, extra columns, unique atom ids) "
@@ -44,7 +44,7 @@ def run_case(case, ctx):
     kinds = {"bond": int(rng.integers(0, 4)), "angle": int(rng.integers(0, 3)), "dihedral": int(rng.integers(0, 3)),
              "improper": (1 + int(rng.integers(0, 2))) if case["impropers"] else 0}
     a = atomsgen.gen_atoms(rng, case["n"], tag="S", cell=case["cell"], kinds=kinds, max_terms=3, scale=6.0)
-    snap = a.copy()
+    snap = clone(a)
     m0 = AM.resolve(a)
     cell = np.array(a.cell, float)
     try:
